@@ -409,6 +409,10 @@ class Queue(Greenlet):
         wait = self.backoff(envelope, attempts)
         if wait is None:
             for reply, group_env in self._split_by_reply(envelope, replies):
+                # The relay's reply object is left alone: a relay may hand
+                # out the same object for other messages as well.
+                reply = Reply(command=reply.command,
+                              address=reply.address).copy(reply)
                 reply.message += ' (Too many retries)'
                 self._perm_fail(None, group_env, reply)
             self._remove(id)
